@@ -1,13 +1,21 @@
 """C03 -- the canonical string is a fixed point of parsing."""
 from common import Family
 import kernel as K
+import urlkit as U
+import oracles as O
+from common import call, outcome, all_of, any_of, sym_eq
 
 PROPERTY = "C03"
 LEVEL = "model_checking"
 BUDGET = {"quick": 240, "thorough": 2400}
-BOUNDS = {"quick": "kernel: R(R(s)) == R(s) for all texts of <= 2 code points x 4 requoters x 2 backends",
+BOUNDS = {"quick": "kernel: R(R(s)) == R(s) for all texts of <= 2 code points x 4 requoters x 2 backends; URL level: 24 skeleton families with holes in "
+                   "every component (escapes with symbolic hex digits incl. %2E, default / non-default ports, IPv6 / zone / IPv4 / mixed-case hosts, "
+                   "reg-name holes), free strings of <= 3 code points, URLs made by build() and 10 modifiers",
           "thorough": "kernel: all texts of <= 3 code points x 4 requoters x 2 backends"}
-ASSUMPTIONS = ["texts longer than the bound are outside the claim",
+ASSUMPTIONS = ["valid input (transcribed from the grammar, each a counted assumption): an RFC scheme if any; free text contains no ':' '[' ']' '@' "
+               "or backslash (path-noscheme, balanced brackets around an IP literal); reg-name holes are drawn from the reg-name alphabet",
+               "the re-parsed URL is compared on scheme, raw_user, raw_password, raw_host, port, raw_path, raw_query_string, raw_fragment and str()",
+               "texts longer than the bound are outside the claim",
                "functools.lru_cache is bypassed (treated as a transparent memo)"]
 MANIFEST_ENTRY = {
     "text": "Bounded model checking of idempotence: the real requoters are run twice symbolically (second pass over symbolic output); z3 decides "
@@ -17,10 +25,93 @@ MANIFEST_ENTRY = {
 }
 
 
+NS = ("ns",)
+HEX = ("hex",)
+USES_NETLOC = ("", "ftp", "http", "gopher", "nntp", "telnet", "imap", "wais", "file", "mms", "https", "shttp", "snews", "prospero", "rtsp", "rtspu",
+               "rsync", "svn", "svn+ssh", "sftp", "nfs", "git", "git+ssh", "ws", "wss", "itms-services")
+
+
+def reparse(ctx, u, tag):
+    """URL(str(u)) has the same string form and the same components"""
+    P = ctx.P
+    t = call(str, u)
+    ctx.check("str-no-exception:" + tag, t[0] == "ok", t[1])
+    ctx.observe("str:" + tag, t[1])
+    ctx.note("u_scheme", u._scheme)
+    ctx.note("u_netloc", u._netloc)
+    ctx.note("u_path", u._path)
+    r2 = call(P.URL, t[1])
+    ctx.observe("reparse:" + tag, outcome(r2))
+    if r2[0] == "excluded":
+        return
+    ctx.check("canonical-string-parses:" + tag, r2[0] == "ok", r2[1])
+    u2 = r2[1]
+    ctx.check("same-string:" + tag, sym_eq(str(u2), t[1]))
+    for a in ("scheme", "raw_user", "raw_password", "raw_host", "port", "raw_path", "raw_query_string", "raw_fragment"):
+        va = call(lambda: getattr(u, a))
+        vb = call(lambda: getattr(u2, a))
+        if va[0] == "excluded" or vb[0] == "excluded":
+            continue
+        ctx.check("same-%s:%s" % (a, tag), va[0] == vb[0] and (va[0] != "ok" or sym_eq(va[1], vb[1])), a)
+
+
+def h_fixed_point(ctx, skeleton, assume_kind=None):
+    P = ctx.P
+    s = U.text(ctx, skeleton)
+    if assume_kind == "free":
+        # valid input: an RFC scheme if any, no ':' in the first segment of a schemeless reference, no brackets / '@' games
+        ctx.assume(all_of([c not in ":[]@\\" for c in s]) if len(s) else True, "free text without ':' '[' ']' '@' and backslash")
+    r = call(P.URL, s)
+    ctx.observe("URL", outcome(r))
+    if r[0] != "ok":
+        return
+    reparse(ctx, r[1], "ctor")
+
+
+def h_built(ctx, skeleton, route):
+    P = ctx.P
+    t = U.text(ctx, skeleton)
+    base = P.URL("http://u:p@h:81/a/b?x=1#f")
+    ops = {
+        "build": lambda: P.URL.build(scheme="http", host="h", user=t, path="/" + t, query_string=t, fragment=t),
+        "build-noauth": lambda: P.URL.build(path="/" + t, query_string=t),
+        "with_path": lambda: base.with_path(t), "with_query": lambda: base.with_query(t), "with_fragment": lambda: base.with_fragment(t),
+        "with_user": lambda: base.with_user(t), "div": lambda: base / t, "with_name": lambda: base.with_name(t),
+        "join": lambda: base.join(P.URL(t)), "relative": lambda: P.URL("http://h//x/" + t).relative(), "with_scheme": lambda: P.URL("http://h/" + t).with_scheme("x"),
+    }
+    r = call(ops[route])
+    ctx.observe(route, outcome(r))
+    if r[0] != "ok":
+        return
+    reparse(ctx, r[1], route)
+
+
+URL_SKELS = [
+    ("path2", ["http://h/", NS, NS]), ("path-esc", ["http://h/a/%", HEX, HEX, NS]), ("path-dot-esc", ["http://h/a/%2", ("in", "eE5"), "%2", ("in", "eEf"), "/b"]),
+    ("query2", ["http://h/p?", NS, NS]), ("query-esc", ["http://h/?%", HEX, HEX, "=", NS]), ("frag2", ["http://h/p#", NS, NS]),
+    ("userinfo", ["http://", ("in", "aA%:~!$&'()*+,;=-._"), ("in", "aA%4:~!$"), ("in", "1fF:@"), "@h/"]), ("userinfo-esc", ["http://u%", HEX, HEX, ":p%", HEX, HEX, "@h"]),
+    ("port2", ["http://h:", ("in", "0123456789"), ("in", "0123456789"), "/p"]), ("port-https", ["https://h:44", ("in", "0123456789"), "?q"]),
+    ("default-port-http", ["http://h:80/", NS]), ("default-port-https", ["https://u@h:443/", NS, "?q"]), ("default-port-ws", ["ws://h:80", ("in", "/?#")]),
+    ("default-port-ftp", ["ftp://h:21/", NS]), ("port-0", ["http://h:0/", NS]),
+    ("ipv6", ["http://[::1]:8/", NS, "?", NS]), ("ipv6-zone", ["http://[fe80::1%25e", ("in", "tT0.-"), "h0]/p"]), ("ipv4-upper", ["HTTP://1.2.3.4/", NS]),
+    ("host-case", ["hTTp://EXAMPLE.c", ("in", "oO0-"), "m:80/", NS]), ("regname", ["http://g", ("in", "aZ-._~!$&'()*+,;=%"), ("in", "aZ4-._~"), ("in", "bF1"), "c/"]),
+    ("netpath", ["//h/", NS, NS]), ("rooted", ["/a", NS, NS, NS]), ("scheme-rootless", ["http:", NS, NS]), ("other-scheme-rootless", ["x:", NS, NS]),
+    ("other-scheme-slashes", ["foo:////", NS]), ("slashes", ["////", NS]), ("triple-slash", ["http:///", NS]), ("empty-auth-q", ["x://?", NS]),
+]
+
+
 def families(tier):
     n = 2 if tier == "quick" else 3
     fams = []
     for name in K.REQUOTERS:
         for k in range(1, n + 1):
             fams.append(Family("kernel/%s/n=%d" % (name, k), K.h_idempotent, dict(name=name, n=k), backends=("py", "c")))
+    q = tier == "quick"
+    for nm, sk in URL_SKELS:
+        fams.append(Family("url/%s" % nm, h_fixed_point, dict(skeleton=sk), backends=("py", "c") if nm in ("path-esc", "query-esc", "userinfo-esc") else ("py",)))
+    for k in range(0, (3 if q else 4) + 1):
+        fams.append(Family("url/free/n=%d" % k, h_fixed_point, dict(skeleton=[NS] * k, assume_kind="free")))
+    for route in ("build", "build-noauth", "with_path", "with_query", "with_fragment", "with_user", "div", "with_name", "join", "relative", "with_scheme"):
+        for nm, sk in (("free1", [NS]), ("esc", ["%", HEX, HEX])) + (() if q else (("free2", [NS, NS]),)):
+            fams.append(Family("made/%s/%s" % (route, nm), h_built, dict(skeleton=sk, route=route)))
     return fams
